@@ -151,6 +151,7 @@ class ParametricTransform:
         if arg.shape != shape:
             raise ValueError(f"{type(self).__name__}.data() 'arg' must have shape {shape!r}")
         copy = shallow_copy(self)
+        copy._parameters = copy._parameters.copy()  # not shared with self, cf. __copy__()
         if callable(params):
             delattr(copy, "p")
         if isinstance(params, Parameter) and not isinstance(arg, Parameter):
@@ -283,7 +284,9 @@ class ParametricTransform:
 
     def unlink(self: Union[TSpatialTransform, ParametricTransform]) -> TSpatialTransform:
         r"""Make a shallow copy of this transformation with parameters set to ``None``."""
-        return shallow_copy(self).unlink_()
+        copy = shallow_copy(self)
+        copy._parameters = copy._parameters.copy()  # not shared with self, cf. __copy__()
+        return copy.unlink_()
 
     def unlink_(self: Union[TSpatialTransform, ParametricTransform]) -> TSpatialTransform:
         r"""Resets transformation parameters to ``None``."""
